@@ -370,6 +370,17 @@ func (cs *ContractSet) loadFile(path, pkgPath string) error {
 					cur.EnsSrc = append(cur.EnsSrc, rest)
 					cur.EnsProp = append(cur.EnsProp, only)
 				}
+			case "assumes":
+				// assumes E: a postcondition handed to the callers but NOT checked against the body (a fact about
+				// trusted library calls inside it, e.g. "this is the SHA-256 of the argument"): a listed assumption
+				x, err := parse(rest)
+				if err != nil {
+					return err
+				}
+				cur.Ensures = append(cur.Ensures, x)
+				cur.EnsSrc = append(cur.EnsSrc, rest)
+				cur.EnsProp = append(cur.EnsProp, "ASSUMED")
+				cs.Assumes = append(cs.Assumes, fmt.Sprintf("%s: assumes %s", cur.Key, rest))
 			case "onexit":
 				only := ""
 				if strings.HasPrefix(rest, "@") {
